@@ -1180,7 +1180,7 @@ def run(ctx):
     else:
         # thorough runs are sharded over worker processes by ./check: each worker takes its share
         nw = max(1, getattr(ctx, "worker", (0, 1))[1])
-        n, max_n, max_m, n_wide, n_huge = 72000 // nw, 8, 8, 320 // nw, max(2, 24 // nw)
+        n, max_n, max_m, n_wide, n_huge = 56000 // nw, 8, 8, 320 // nw, max(2, 24 // nw)
     wide_cases(ctx, rng, n_wide, n_huge)
     for _ in range(n):
         one_random(ctx, rng, max_n, max_m)
